@@ -81,6 +81,17 @@ def _taken_from(f, ev, fld):
     return o is not None and norm(o.get('field') or '') == fld
 
 
+def _own(c):
+    """is the promise called the analysed function's own promise parameter (paths of inlined helpers are substituted to the root's)?"""
+    r = c.get('recv') or ''
+    return bool(re.match(r'param:\w+', r)) and c.get('depth', 0) >= 0 and not r.startswith('param:p#')
+
+
+def _foreign(c):
+    """a promise that is not the function's own parameter: it was taken out of a container of parked operations"""
+    return norm(c.get('callee')) in PROM_CALL and not _own(c)
+
+
 def push_linear(ctx, db, rid, name):
     ctx.rule(rid, 'COUNT', 'queue::push: on every path the forwarded item reaches exactly one sink: the promise of the oldest waiting pop (obtained by front() then exactly one pop() '
              'of the waiter queue, only on its non-empty edge) or emplace into the item queue (only on the edge where no pop waits)', floor=1)
@@ -95,7 +106,7 @@ def push_linear(ctx, db, rid, name):
                     ce = cond_event(tr, i)
                     if ce is not None and on(ce, WAITERS) and op(ce) == 'empty' and waiting is None:
                         waiting = (it.val is False)
-            hand = [c for c in calls(tr) if norm(c.get('callee')) in PROM_CALL and _taken_from(f, c, WAITERS)]
+            hand = [c for c in calls(tr) if _foreign(c)]
             emp = [c for c in calls(tr) if on(c, ITEMS) and op(c) in ('emplace', 'push')]
             wpop = [c for c in calls(tr) if on(c, WAITERS) and op(c) == 'pop']
             wfront = [c for c in calls(tr) if on(c, WAITERS) and op(c) == 'front']
@@ -124,7 +135,7 @@ def pop_linear(ctx, db, rid, name, refill=False):
     lams = lambdas_of(db, name)
     if not lams:
         raise Broken('anchor vanished: lambda of ' + name)
-    T = Tracer(db, depth=0)
+    T = htracer(db)
     for lf in lams:
         trs = [t for t in T.traces(lf) if live(t)]
         ctx.paths(rid, len(trs))
@@ -138,7 +149,7 @@ def pop_linear(ctx, db, rid, name, refill=False):
                     if ce is not None and on(ce, ITEMS) and op(ce) == 'empty':
                         empty = bool(it.val)
             park = [c for c in calls(tr) if on(c, WAITERS) and op(c) in ('emplace', 'push')]
-            res = [c for c in calls(tr) if norm(c.get('callee')) in PROM_CALL and (c.get('recv') or '').startswith('param:')]
+            res = [c for c in calls(tr) if norm(c.get('callee')) in PROM_CALL and _own(c)]
             ipop = [c for c in calls(tr) if on(c, ITEMS) and op(c) == 'pop']
             ifront = [c for c in calls(tr) if on(c, ITEMS) and op(c) == 'front']
             if empty is None:
@@ -194,7 +205,7 @@ def unblock(ctx, db, rid, name, fld):
                 n += 1
                 if len(fr) != 1 or len(pp) != 1 or tr.index(fr[0]) > tr.index(pp[0]):
                     bad = bad or ('the oldest entry is not removed exactly once (front %d, pop %d): %s' % (len(fr), len(pp), 'its item would be delivered later as a phantom' if not pp else 'another entry is lost'), tr)
-                if len(ex) != 1 or norm(ex[0].get('callee')) != 'cocls::promise::set_exception' or not _taken_from(f, ex[0], fld):
+                if len(ex) != 1 or norm(ex[0].get('callee')) != 'cocls::promise::set_exception' or _own(ex[0]):
                     bad = bad or ('not exactly the removed entry\'s promise is failed', tr)
         if n == 0 and not bad:
             bad = ('no non-empty edge', trs[0] if trs else [])
@@ -207,17 +218,19 @@ ACCESS = {'front', 'back', 'pop', 'top'}
 def nonempty(ctx, db, rid, classes):
     ctx.rule(rid, 'GUARDED', 'front()/pop() of the item, waiter and blocked queues is reached only under a fact "not empty" established by a branch on empty() of the same container '
              '(killed by pop/clear/swap)', floor=4)
-    T = Tracer(db, depth=0)
+    T = htracer(db)
     seen = set()
     for key in db.keys():
         f0 = db.rep(key)
         if not locks._in_classes(db, f0, classes):
             continue
+        if not f0.get('lambda') and f0.get('access') != 0 and [c for c in callers_of(db, f0['nname']) if c.startswith('cocls::queue') or c.startswith('cocls::limited_queue')]:
+            continue        # a non-public helper: its accesses are judged inside its callers (it is expanded there)
         for f in db.instances(key):
-            uses = [e for e in f.events() if e.k == 'call' and norm(e.get('field') or '') in (ITEMS, WAITERS, BLOCKED) and op(e) in ACCESS]
+            trs = T.traces(f)
+            uses = [it for tr in trs for it in tr if it.k == 'call' and norm(it.get('field') or '') in (ITEMS, WAITERS, BLOCKED) and op(it) in ACCESS and not it.get('expanded')]
             if not uses:
                 continue
-            trs = T.traces(f)
             ctx.paths(rid, len(trs))
             badsite = {}
             for tr in trs:
@@ -252,22 +265,29 @@ def nonempty(ctx, db, rid, classes):
 def resolve_outside_lock(ctx, db, rid, names):
     ctx.rule(rid, 'LOCKSET', 'a promise that was taken out of the waiter / blocked queue belongs to somebody else\'s suspended operation: it is resolved only after the queue\'s lock '
              'has been released (resolving runs the waiter\'s code, which may call back into the queue)', floor=2)
-    la = locks.LockAnalysis(db, GUARDED)
     for name in names:
         fns = db.fns(name) + [lf for lf in lambdas_of(db, name)]
         if not fns:
             raise Broken('anchor vanished: ' + name)
+        T = htracer(db)
         seen = set()
         for f in fns:
-            held = la.held_map(f)
-            for e in f.events():
-                if e.k == 'call' and norm(e.get('callee')) in PROM_CALL and (_taken_from(f, e, WAITERS) or _taken_from(f, e, BLOCKED)):
-                    k = (f['key'], e['loc'])
-                    h = held.get(e['id'], frozenset())
-                    if k in seen and not h:
-                        continue
-                    seen.add(k)
-                    ctx.ob(rid, f, e['loc'], not h, 'promise taken from the queue is resolved with no lock held', detail={'held': sorted(h)}, desc='queued promise resolved while holding the queue lock')
+            bad = None; n = 0
+            for tr in T.traces(f):
+                held = trace_lockset(tr)
+                for i, it in enumerate(tr):
+                    if it.k == 'call' and _foreign(it) and not it.get('expanded'):
+                        n += 1
+                        if held[i]:
+                            bad = bad or (it, sorted(held[i]), tr)
+            if n == 0:
+                continue
+            k = (f['key'], bad is None)
+            if k in seen:
+                continue
+            seen.add(k)
+            ctx.ob(rid, f, (bad[0]['loc'] if bad else f['key']), bad is None, 'promises taken from the queue are resolved with no lock held in %s' % f['nname'].split('::', 1)[1][:60],
+                   detail={'held': bad[1]} if bad else None, desc='queued promise resolved while holding the queue lock', trace=fmt_trace(bad[2]) if bad else None)
 
 
 def forward_once(ctx, db, rid):
@@ -354,7 +374,9 @@ def void_counter(ctx, db, rid):
             ws = [e for e in f.events() if e.k == 'write' and (e.get('path') or '') == 'this->_sz']
             ok = len(ws) == 1 and not has_back_edge(f)
             if want == '++':
-                ok = ok and (ws[0].get('op') in ('++',) or (ws[0].get('op') == '+=' and ws[0].get('const') == 1))
+                ok = ok and delta_of_write(ws[0]) == 1
             else:
-                ok = ok and (re.sub(r'\s+', '', ws[0].get('rhs') or '') in ('(call(std::max)-1)',) or ws[0].get('op') in ('--',) or (ws[0].get('op') == '-=' and ws[0].get('const') == 1))
+                rhs = re.sub(r'\s+', '', ws[0].get('rhs') or '')
+                # max(1, _sz) - 1 (saturating decrement), or a plain decrement guarded by a non-zero test
+                ok = ok and (rhs in ('(call(std::max)-1)',) or bool(re.fullmatch(r'\(local:\w+-1\)', rhs)) or delta_of_write(ws[0]) == -1)
             ctx.ob(rid, f, f['key'], ok, '%s changes the token count by exactly one' % name.split('::')[-1], desc='std_queue<void>::%s does not change the count by one' % name.split('::')[-1])
